@@ -58,7 +58,11 @@ PROPS['C16'] = {'level': 'proof', 'theorems': [], 'campaigns': [camp('staking', 
 PROPS['C17'] = {'level': 'proof', 'theorems': [], 'campaigns': [camp('staking', 24, 200)]}
 PROPS['C18'] = {'level': 'proof', 'theorems': [], 'campaigns': [camp('staking', 24, 200), camp('ledger', 8, 100)]}
 PROPS['C19'] = {'level': 'proof', 'theorems': [], 'campaigns': [camp('staking', 24, 200), camp('ledger', 8, 100)]}
-PROPS['C20'] = {'level': 'proof', 'theorems': [], 'campaigns': [camp('staking', 24, 200)]}
+PROPS['C20'] = {'level': 'proof', 'theorems': [], 'campaigns': [camp('governance', 32, 300), camp('staking', 8, 100)]}
 
 for _p in ['C06','C15','C22','C27']:
     PROPS[_p] = {'level': 'proof', 'theorems': [], 'campaigns': [camp('checktx', 12, 100), camp('orders', 12, 100), camp('ledger', 8, 100)]}
+
+PROPS['C08'] = {'level': 'proof', 'theorems': [], 'modes': [{'mode': 'determinism', 'args': ['-profile', 'mixed', '-seed', '{seed}', '-n', '4', '-tier', '{tier}', '-keep', '{keep}']}]}
+PROPS['C09']['modes'] = [{'mode': 'restart', 'args': ['-profile', 'mixed', '-seed', '{seed}', '-n', '6', '-tier', '{tier}', '-keep', '{keep}']}]
+PROPS['C11'] = {'level': 'proof', 'theorems': [], 'modes': [{'mode': 'export', 'args': ['-profile', 'mixed', '-seed', '{seed}', '-n', '16', '-tier', '{tier}', '-keep', '{keep}']}]}
